@@ -35,8 +35,8 @@ def candidate_loops(ctx: Ctx, g: Graph) -> List[Tuple[Ev, set, Ev, Ev]]:
         region = loop_region(g, lp, labels=EXC_LABELS)
         spawns = [g.evs[m] for m in sorted(region) if g.evs[m].kind == 'call' and ctx.roles.spawn(g.evs[m])]
         waits = [g.evs[m] for m in sorted(region) if g.evs[m].kind == 'call' and ctx.roles.wait(g.evs[m]) is not None]
-        if spawns and waits:
-            out.append((lp, region, spawns[0], waits[0]))
+        if spawns:
+            out.append((lp, region, spawns[0], waits[0] if waits else None))
     return out
 
 
@@ -77,7 +77,7 @@ def rule_oneof_sequential(ctx: Ctx, out: Collector) -> None:
                 continue
             seen.add(cons)
             n += 1
-            exits = _wait_exits(g, wait)
+            exits = _wait_exits(g, wait) if wait is not None else set()
             problems = []
             # (a) spawn -> next iteration must pass the wait's predicate-true exit
             p1 = find_path(g, spawn.id, {lp.id}, avoid=exits, labels=EXC_LABELS)
